@@ -73,6 +73,8 @@ class Models:
     # ------------------------------------------------------------------ classification
     def pytype(self, v):
         """the Python type of a value, as a real class (for isinstance)"""
+        if hasattr(v, "seq") and hasattr(v, "k") and type(v).__name__ == "SymKey":
+            return str
         if isinstance(v, SInt):
             return bool if v.isbool else int
         if isinstance(v, SBool):
@@ -423,7 +425,7 @@ class Models:
 
     def equals(self, l, r):
         """Python == ; returns bool or SBool"""
-        if not is_symv(l) and not is_symv(r):
+        if not is_symv(l) and not is_symv(r) and deep_concrete(l) and deep_concrete(r):
             if isinstance(l, ExcVal) or isinstance(r, ExcVal):
                 return l is r
             return l == r
@@ -517,6 +519,30 @@ class Models:
         if cb is not None and cb <= 80:
             conj = [zint(la) == cb] + [a.at(k) == b.at(k) for k in range(cb)]
             return mk_bool(z3.And(*conj))
+        # peel a concrete-length tail (appended fields) and compare it cell by cell; compare the rest recursively
+        for x, y in ((a, b), (b, a)):
+            t = 0
+            nseg = 0
+            for sg in reversed(x.segs):
+                if isinstance(sg, (LitSeg, CellSeg)):
+                    t += sg.length()
+                    nseg += 1
+                elif isinstance(sg, ViewSeg) and isinstance(sg.len, int):
+                    t += sg.len
+                    nseg += 1
+                else:
+                    break
+            if 0 < t <= 80 and nseg < len(x.segs) and len(y.segs) == 1 and isinstance(y.segs[0], ViewSeg):
+                ly = zint(y.length())
+                tail = SBytes(x.segs[len(x.segs) - nseg:])
+                conj = [ly >= t] + [tail.at(j) == y.at(z3.simplify(ly - t + j)) for j in range(t)]
+                rest = self.rope_eq(SBytes(x.segs[:len(x.segs) - nseg]), y.slice(0, z3.simplify(ly - t)))
+                return self.and_(mk_bool(z3.And(*conj)), rest)
+        suff = None
+        if len(a.segs) == 1 and len(b.segs) == 1 and isinstance(a.segs[0], ViewSeg) and isinstance(b.segs[0], ViewSeg) \
+                and a.segs[0].base is b.segs[0].base:
+            # same array, same window: sufficient for equality (used as an extra disjunct of the proxy below)
+            suff = z3.And(zint(a.segs[0].start) == zint(b.segs[0].start), zint(la) == zint(lb))
         # general case: proxy with Skolemised disequality (sound for refutation of the negation, i.e. as a goal);
         # as a hypothesis it only yields the length equation plus instances at known index terms.
         p = z3.Bool(fresh_name("ropeeq"))
@@ -526,6 +552,8 @@ class Models:
         self.st.assume(mk_bool(z3.Implies(z3.Not(p), z3.Or(zint(la) != zint(lb),
                                                             z3.And(kap >= 0, kap < zint(la), a.at(kap) != b.at(kap))))))
         self.st.ghost.setdefault("ropeeq", []).append((p, a, b))
+        if suff is not None:
+            return mk_bool(z3.Or(suff, p))
         return SBool(p)
 
     def str_eq(self, l, r):
@@ -553,6 +581,8 @@ class Models:
                         # same piece structure, different literal: for Fmt-separated names this decides inequality
                         # only when literals are at the same position and differ
                         return self._regex_differs(lp, rp)
+                elif isinstance(a, HexInt):
+                    conds.append(zint(a.e) == zint(b.e))
                 elif isinstance(a, ReprOf):
                     c = self.equals(a.val, b.val)  # repr is injective on bytes / ints
                     if c is False:
@@ -838,6 +868,8 @@ class Models:
             except IndexError:
                 self.raise_(IndexError, "string index out of range")
         pieces = s.pieces
+        if len(pieces) == 1 and isinstance(pieces[0], HexInt) and isinstance(idx, slice) and idx.start == 2 and idx.stop == 3:
+            return SStr((HexDigit(pieces[0].e),))  # first hex digit after '0x' (non-negative ints)
         if isinstance(idx, slice):
             lo, hi = idx.start, idx.stop
             if is_symv(lo) or is_symv(hi):
@@ -1500,6 +1532,8 @@ class Models:
                 return format(val, spec)
             except Exception as e:
                 self.raise_(type(e), str(e))
+        if isinstance(val, SStr) and spec == "" and conv in (-1, 115):
+            return val  # str() of a (symbolic) string is the string itself
         if isinstance(val, SBytes) and spec == "":
             return ReprOf(val)
         if isinstance(val, (SInt,)) and not val.isbool:
@@ -1593,6 +1627,8 @@ class Models:
         return t
 
     def b_len(self, v):
+        if hasattr(v, "item") and hasattr(v, "n") and isinstance(v, Sym):
+            return SInt(v.n)
         if isinstance(v, SBytes):
             n = v.length()
             return n if isinstance(n, int) else SInt(n)
@@ -1652,6 +1688,16 @@ class Models:
                     self.raise_(ValueError, "cannot convert float NaN to integer")
                 self.raise_(OverflowError, "cannot convert float infinity to integer")
             return SInt(f2i(v.e))
+        if isinstance(v, SStr) and len(v.pieces) == 1 and isinstance(v.pieces[0], HexDigit):
+            k = v.pieces[0].e
+            if not self.st.must(z3.And(k >= 1, k < (1 << 32))):
+                raise Unsupported("leading hex digit of an int outside 1 .. 2**32-1")
+            d = z3.Int(fresh_name("hexdigit"))
+            self.st.assume(mk_bool(z3.Or(*[z3.And(k >= (1 << (4 * m)), k < (1 << (4 * m + 4)), d == k / (1 << (4 * m)))
+                                           for m in range(8)])))
+            if self.st.branch(mk_bool(d >= 10)):
+                self.raise_(ValueError, "invalid literal for int() with base 10: 'a'..'f'")
+            return mk_int(d)
         if isinstance(v, (SBytes, SStr)):
             raise Unsupported("int(symbolic text)")
         if is_symv(v):
@@ -1828,7 +1874,7 @@ class Models:
             from contracts.specs import FITS32
             if self.st.branch(mk_bool(z3.Not(FITS32(v.e)))):
                 self.raise_(OverflowError, "float too large to pack with f format")
-        cells = [z3.Int(fresh_name("pk")) for _ in range(n)]
+        cells = [PACKF(z3.IntVal(n), v.e, z3.IntVal(j)) for j in range(n)]  # a function of the float: deterministic
         for c in cells:
             self.st.assume(mk_bool(z3.And(c >= 0, c <= 255)))
         total = z3.Sum([c * (1 << (8 * i)) for i, c in enumerate(cells)])
@@ -1860,6 +1906,9 @@ class Models:
         return (SFloat(unpack_f(z3.IntVal(n), total), shape=("unpack", n, total)),)
 
 
+PACKF = z3.Function("packf", IntS, FSort, IntS, IntS)  # (width, float, byte index) -> byte of struct.pack
+
+
 class ReprOf:
     """piece of SStr: repr()/str() of a symbolic bytes or int value (what an f-string interpolates)"""
     __slots__ = ("val",)
@@ -1869,6 +1918,14 @@ class ReprOf:
 
     def __repr__(self):
         return f"ReprOf({self.val!r})"
+
+
+class HexDigit:
+    """piece of SStr: the first hex digit of hex(int)"""
+    __slots__ = ("e",)
+
+    def __init__(self, e):
+        self.e = e
 
 
 class HexInt:
